@@ -277,13 +277,16 @@ add("C06", "TLC on FieldArith.tla (contractions of fields over tuples of spaces 
     "fail, operands on a different domain of the same shape must be rejected.",
     TRUST + "sphere pixelisations enter through C08's volume laws only.")
 
-add("C18", "TLC on LinGauss.tla (exact posterior covariance of linear Gaussian models and its blocks under point estimates) + exact sample covariance of the real samplers by unit excitations (classic through Random.normal, JAX through evi.random_like)",
+add("C18", "TLC on LinGauss.tla (exact posterior covariance of linear Gaussian models and its blocks under point estimates) and SampleModes.tla (sampling-mode state machine of the JAX driver: keys re-used / fresh, samples aligned with keys; action properties) + replay of every sampling schedule into OptimizeVI.draw_samples with recording samplers + exact sample covariance of the real samplers by unit excitations (classic through Random.normal, JAX through evi.random_like)",
     "24 models (six response matrices incl. rank 0 and rank 1, two noise settings, two data vectors): D = (1 + R^T N^-1 R)^-1 by adjugates in Rat; "
     "TLC checks D Dinv = 1, symmetry, 0 < D_ii <= 1, conditional <= marginal variances. For the classic SampledKLEnergy (mirrored / not, 1-2 "
     "samples, point estimates, MGVI and geoVI) and for nifty.re's draw_linear_residual / draw_residual the linear map excitations -> residuals "
     "is extracted: L L^T = D (block under point estimates, zero residual for point-estimated keys), draws independent, mirrored samples exact "
-    "negatives, average = expansion point, non-linear update leaves samples of a linear model unchanged.",
-    TRUST + "CG tolerances 1e-13, comparison 1e-9; OptimizeVI's sample-mode state machine is covered by C24's spec, not here.")
+    "negatives, average = expansion point, non-linear update leaves samples of a linear model unchanged. SampleModes.tla: per iteration a mode and a "
+    "number of samples; TLC checks that re-sampling uses fresh keys, '*_sample' and 'nonlinear_update' keep the keys, n = 0 changes nothing, a changed n "
+    "always re-samples, samples stay aligned with keys; every schedule of 3 (4) iterations is stepped through the real draw_samples whose two "
+    "samplers are replaced (constructor arguments) by recording stand-ins that carry key identity, sign and update count in the sample values.",
+    TRUST + "CG tolerances 1e-13, comparison 1e-9.")
 add("C19", "TLC on LinGauss.tla (sampled KL of quadratic Hamiltonians in Rat: value and gradient of the average over expansion point +- residuals; closed-form law for mirrored samples) + replay into SampledKLEnergyClass / SampledKLEnergy and nifty.re _kl_vg / _kl_met",
     "For every model, two expansion points and two residuals (mirrored and not) the spec gives the exact average value and gradient; the metric is "
     "Dinv. Replayed into the classic energy on a ResidualSampleList with exactly these residuals (value, gradient, dense metric, at(), constant "
